@@ -23,12 +23,17 @@ CLAIMED = {
               "checked (arity/coordinate indices in range). Model of all ten rewrites and the seven shapes tied to the code "
               "by d-string equality over letter-exhaustive and random command sequences; the curve-preservation laws are "
               "evaluated on the implementation with the Lean path interpreter Spec.interp (SVG 8.3) as judge. Semantic "
-              "preservation theorems (interp (f p) = interp p) are not yet proved in Lean: that half is currently carried "
-              "by the Spec-judged search only."),
+              "preservation is proved by simulation for explicit_lines() (explicitLines_preserves_curve) and absolute() "
+              "(absolute_preserves_curve: whenever the 1e-9 end-point snapping does not fire; unconditionally at tolerance 0): "
+              "for every command sequence the specification gives a meaning to, Spec.interp of the output equals Spec.interp of "
+              "the input; the walker's current point / subpath start equal the interpreter's after every command for all twenty "
+              "letters (nextPos_is_current_point), and any callback that is sound command by command inherits the result "
+              "(sound_callback_preserves_curve). For expand_shorthand, arcs_to_cubics, move, relative and the shapes the "
+              "semantic half is carried by the Spec-judged search."),
         note=("Trusted: Lean kernel; propext/Classical.choice/Quot.sound; Spec/PathInterp.lean, Spec/Shapes.lean; translator; "
               "harness; F64 ntos/round bridge. One recorded finding (smooth shorthand directly after an arc in "
               "SVGPath.arcs_to_cubics) and two repaired defects, see known_findings.json."),
-        technique="Lean 4 proof (induction over the walk) + d-string correspondence + Spec.interp-judged search",
+        technique="Lean 4 proof (induction over the walk; simulation of the walk by the path interpreter) + d-string correspondence + Spec.interp-judged search",
         ref="DESIGN.md §4 C09"),
     "C10": dict(
         text=("Lean 4 theorems about the tokenizer model: every float/flag token is a prefix of the text it was matched "
